@@ -42,14 +42,14 @@ func c17(c *ctx) {
 	}
 	failed := 0
 	for _, cs := range cases {
-		res := runChild(c, 90*time.Second, append([]string{"C17sub"}, cs...)...)
+		res := runChildE(c, 90*time.Second, append([]string{"C17sub"}, cs...)...)
 		o.stat("children", 1)
 		if res.exit != 0 {
 			if sig := crashSignature(res.stderr); sig != "" {
-				o.V("C17 bookkeeping crashed the process: "+sig, map[string]any{"case": cs, "stderr_tail": tail(res.stderr, 1500)})
+				o.V("C17 bookkeeping crashed the process: "+sig, map[string]any{"case": cs, "stderr_tail": tailE(res.stderr, 1500)})
 			} else {
 				failed++
-				o.N(fmt.Sprintf("child %v exit=%d timedOut=%v stderr=%s", cs, res.exit, res.timedOut, tail(res.stderr, 300)))
+				o.N(fmt.Sprintf("child %v exit=%d timedOut=%v stderr=%s", cs, res.exit, res.timedOut, tailE(res.stderr, 300)))
 			}
 		}
 	}
@@ -59,7 +59,7 @@ func c17(c *ctx) {
 	}
 }
 
-func tail(s string, n int) string {
+func tailE(s string, n int) string {
 	if len(s) > n {
 		return s[len(s)-n:]
 	}
